@@ -602,6 +602,7 @@ def freeOk (env : FnEnv) (S : List String) (m : TMap) : Bool :=
 def isTIFix (R : Resolver) (env : FnEnv) (G : Graph) (reach : List Nat) (S : List String) (ins outs : NMap) : Bool :=
   reachClosed G reach &&
   (contextTypes env).leB (ins.get G.entry) &&
+  (ins.get G.entry).keys.all (fun x => env.isFree x) &&     -- nothing is known about the function's own variables at the entry
   reach.all fun i => match G.find i with
     | none => false
     | some n =>
